@@ -13,20 +13,20 @@ type storeItem struct {
 }
 
 type StoreState struct {
-	log     []storeEntry
-	txMark  int
-	reads   []*SliceV
+	log      []storeEntry
+	txMark   int
+	reads    []*SliceV
 	recReads bool
-	name    string
+	name     string
 }
 
 // EnvState is the modelled execution environment of one path.
 type EnvState struct {
-	stores       []*StoreState
-	events       []Value // *IfaceV of emitted typed events (deep copies)
-	eventMark    int
+	stores        []*StoreState
+	events        []Value // *IfaceV of emitted typed events (deep copies)
+	eventMark     int
 	eventsMayFail bool
-	eventErrs    int
+	eventErrs     int
 }
 
 func (e *Exec) storeKeyCheck(k *SliceV, what string) {
@@ -184,6 +184,43 @@ func (e *Exec) nilErr() *IfaceV { return &IfaceV{} }
 func (e *Exec) modelMethod(mo *ModelObj, name string, args []Value) Value {
 	tb := e.tb
 	switch mo.kind {
+	case "keccakstate":
+		buf := mo.data["buf"].(*SliceV)
+		switch name {
+		case "Reset":
+			if mo.global {
+				e.noteGlobalWrite("KeccakState.Reset", mo)
+			}
+			mo.data["buf"] = e.constBytes("", false)
+			return nil
+		case "Write":
+			if mo.global {
+				e.noteGlobalWrite("KeccakState.Write", mo)
+			}
+			in := e.asBytes(args[0], "Write")
+			mo.data["buf"] = e.concatBytes(buf, in, false)
+			return TupleV{in.len, e.nilErr()}
+		case "Read":
+			if mo.global {
+				e.noteGlobalWrite("KeccakState.Read", mo)
+			}
+			out := e.asBytes(args[0], "Read")
+			if e.branch(tb.Not(tb.Eq(out.len, tb.BV(32, 64)))) {
+				e.fail("KeccakState.Read into a buffer that is not 32 bytes")
+			}
+			h := e.keccak(buf)
+			e.copyBytes(out, h)
+			return TupleV{tb.BV(32, 64), e.nilErr()}
+		case "Sum":
+			if mo.global {
+				e.noteGlobalRead(mo)
+			}
+			return e.concatBytes(e.asBytes(args[0], "Sum"), e.keccak(buf), false)
+		case "Size":
+			return tb.BV(32, 64)
+		case "BlockSize":
+			return tb.BV(136, 64)
+		}
 	case "storeservice":
 		if name == "OpenKVStore" {
 			return &IfaceV{t: modelDynType, v: &ModelObj{kind: "corestore", st: mo.st}}
